@@ -82,6 +82,12 @@ fn gen(seed: u64, idx: u64, _tier: Tier) -> Plan {
     s.batch_size = *rng.pick(&[1i64, 8, 64]);
     s.log_level = Some(0);
     world_knobs(&mut rng, &mut plan, false);
+    if rng.chance(1, 4) {
+        // transient send_to / recv_from errors: what the worker does right after one must not
+        // change what the next request gets
+        plan.world.faults.send_err = *rng.pick(&[30u32, 100]);
+        plan.world.faults.recv_err = *rng.pick(&[0u32, 30]);
+    }
     // the matrix is enumerated completely: no variant may be lost to a full receive queue
     plan.world.rcv_cap = 1 << 16;
     plan.server = Some(s);
